@@ -290,6 +290,27 @@ class CFG:
                 out.add(d)
         return out
 
+    def specialised(self, assume):
+        """A view of the graph under the assumption `assume` (name -> bool): out-edges of `if` tests that the assumption
+        decides are pruned.  Only tests built from the assumed names with not/and/or are decided; everything else keeps
+        both edges, so every path of the real program under the assumption is a path of the view."""
+        import copy
+        g = copy.copy(self)
+        g.succ = defaultdict(set, {k: set(v) for k, v in self.succ.items()})
+        g.pred = defaultdict(set, {k: set(v) for k, v in self.pred.items()})
+        for tid, st in self.if_of.items():
+            v = partial_eval(st.test, assume)
+            if v is None:
+                continue
+            for s in list(g.succ[tid]):
+                lab = self.edge_label.get((tid, s), "") or "F"
+                if lab == "exc":
+                    continue
+                if (lab == "T") != v:
+                    g.succ[tid].discard(s)
+                    g.pred[s].discard(tid)
+        return g
+
     def stmt_nodes(self):
         return [n for n in self.nodes if n.ast is not None]
 
@@ -328,3 +349,42 @@ class CFG:
                     c += cnt[y]
             cnt[x] = min(c, limit)
         return cnt[self.entry.id]
+
+
+def partial_eval(test, assume):
+    """three-valued evaluation of a boolean test under `assume` (name -> bool): True / False / None (unknown)"""
+    if isinstance(test, ast.Name):
+        return assume.get(test.id)
+    if isinstance(test, ast.Constant) and isinstance(test.value, bool):
+        return test.value
+    if isinstance(test, ast.UnaryOp) and isinstance(test.op, ast.Not):
+        v = partial_eval(test.operand, assume)
+        return None if v is None else (not v)
+    if isinstance(test, ast.BoolOp):
+        vs = [partial_eval(v, assume) for v in test.values]
+        if isinstance(test.op, ast.And):
+            if any(v is False for v in vs):
+                return False
+            return True if all(v is True for v in vs) else None
+        if any(v is True for v in vs):
+            return True
+        return False if all(v is False for v in vs) else None
+    if isinstance(test, ast.Compare) and len(test.ops) == 1 and isinstance(test.left, ast.Name) and test.left.id in assume \
+            and isinstance(test.comparators[0], ast.Constant) and isinstance(test.comparators[0].value, bool):
+        v = assume[test.left.id]
+        c = test.comparators[0].value
+        if isinstance(test.ops[0], (ast.Is, ast.Eq)):
+            return v == c
+        if isinstance(test.ops[0], (ast.IsNot, ast.NotEq)):
+            return v != c
+    return None
+
+
+def specialise_expr(node, assume):
+    """the sub-expression an IfExp reduces to under the assumption (recursively), else the node itself"""
+    while isinstance(node, ast.IfExp):
+        v = partial_eval(node.test, assume)
+        if v is None:
+            return node
+        node = node.body if v else node.orelse
+    return node
